@@ -401,6 +401,12 @@ def _evaluate(e, env, bits=64):
             import math
             x_ = float(args[0])
             return int(math.isfinite(x_) if name == "is_finite" else (math.isnan(x_) if name == "is_nan" else math.isinf(x_)))
+        if name == "to_bits" and len(args) == 1 and isinstance(args[0], float):
+            import struct as _st
+            return _st.unpack("<Q", _st.pack("<d", args[0]))[0]
+        if name == "from_bits" and len(args) == 1 and isinstance(args[0], int) and not isinstance(args[0], bool) and "f64" in e[1]:
+            import struct as _st
+            return _st.unpack("<d", _st.pack("<Q", args[0] & 0xFFFFFFFFFFFFFFFF))[0]
         if name in ("eq", "ne") and len(args) == 2 and all(isinstance(a, (int, float)) for a in args):
             return int((args[0] == args[1]) == (name == "eq"))
         if name in ("saturating_add", "saturating_mul") and len(args) == 2 and all(isinstance(a, int) for a in args):
